@@ -176,8 +176,10 @@ def step (s : State) : Op → Option State
       match ino with
       | none => some { s1 with space := addSpace s1.space b }
       | some (id, len, n) =>
-        let r := linkIno id len n s1.inos
-        some { s1 with inos := r.1, space := addSpace s1.space (b + r.2) }
+        if 0 < n then
+          let r := linkIno id len n s1.inos
+          some { s1 with inos := r.1, space := addSpace s1.space (b + r.2) }
+        else none
   | .rm parts ino =>
     match rmParts s parts with
     | none => none
@@ -206,6 +208,9 @@ def Ok (s : State) : Prop :=
 
 def Inv (s : State) : Prop :=
   s.space = layoutEnd s ∧ Ok s
+
+/-- every stored content is named at least once (C07: a content exists exactly as long as a name refers to it) -/
+def Named (s : State) : Prop := ∀ i ∈ s.inos, 0 < i.links
 
 /-- `PyCdlib.new()` without extensions: system area, PVD, terminator, version descriptor; path tables; the root -/
 def init0 : State :=
